@@ -783,7 +783,7 @@ func main_(child string, args []string) {
 	if err != nil {
 		common.Fatalf("read: %v", err)
 	}
-	results := common.Supervise(child, nil, lines, 180*time.Second, 12)
+	results := common.SuperviseRetry(child, nil, lines, 180*time.Second, 12)
 	for i := range results {
 		r := &results[i]
 		if !r.OK && (r.Key == "crash" || r.Key == "hang") {
